@@ -611,6 +611,16 @@ def run_corpus(run, binp):
     return n
 
 # ----------------------------------------------------------------------------- check
+def resource_guard(cfg):
+    """min_pool_size is a number of server connections bb8 opens eagerly (one task each): an accepted
+    min_pool_size = pool_size = 4294967295 exhausts memory.  Resource limits are outside the property;
+    keep eagerly opened connections small."""
+    for p in cfg["pools"]:
+        for u in (p["users"] or []):
+            if isinstance(u["min_pool_size"], int) and isinstance(u["pool_size"], int) and 64 < u["min_pool_size"] <= u["pool_size"]:
+                u["min_pool_size"] = 3
+
+
 def gen_cases(rng, nrand):
     cases = []
     # boundary set: every mutation applied alone to fixed bases of 1, 2 and 3 shards
@@ -634,6 +644,8 @@ def gen_cases(rng, nrand):
             except (IndexError, ValueError, KeyError, TypeError):
                 pass            # an earlier mutation removed what this one edits
         cases.append((names, c))
+    for _, c in cases:
+        resource_guard(c)
     return cases
 
 
